@@ -128,12 +128,7 @@ func TestReplay(t *testing.T) {
 		t.Fatalf("no HEADER in %s: %v", in, err)
 	}
 	hdr = h0
-	needCreate := true
-	for _, a := range hdr.Acts {
-		if a == "create" {
-			needCreate = false
-		}
-	}
+	needCreate := hdr.Precreated
 
 	_, total, err := ReadTLC(in, stride, offset, func(idx int, b *Behaviour) error {
 		sum.Behaviours++
